@@ -17,6 +17,8 @@ import (
 	"regexp"
 	"sort"
 	"strings"
+	"sync/atomic"
+	"time"
 )
 
 // Check describes the machinery for one property.
@@ -43,6 +45,11 @@ type Check struct {
 	// Serial forces a single worker (used by checks that are cheap or that manage their own
 	// processes).
 	MaxWorkers int
+	// StallCPU > 0: the worker ends a case (exit 4, journal STALL) when the process has burnt this much
+	// CPU time without the check reporting progress through Ctx.Progress. CPU time, not wall time: the
+	// verdict does not depend on the load of the machine. Confirmed alone, a stall is a violation
+	// ("uninterruptible"): used by checks whose property is that the code keeps reaching a monitor point.
+	StallCPU time.Duration
 	// RlimitMB caps the address space of each worker process (0 = no cap), so that a runaway
 	// allocation kills one attributable worker instead of the sandbox.
 	RlimitMB int
@@ -320,3 +327,8 @@ func Hash64(s string) uint64 {
 	h := sha256.Sum256([]byte(s))
 	return binary.LittleEndian.Uint64(h[:8])
 }
+
+var progressCounter int64
+
+// Progress is called by a check at its monitor points (see Check.StallCPU).
+func (c *Ctx) Progress() { atomic.AddInt64(&progressCounter, 1) }
